@@ -6,7 +6,7 @@ Builds tasks and before-stages for a stage that is ready to run.
 
 from __future__ import annotations
 
-from typing import TYPE_CHECKING
+from typing import TYPE_CHECKING, Any
 
 from stabilize.dag.graph import StageGraphBuilder
 from stabilize.stages.builder import get_default_factory
@@ -47,7 +47,14 @@ class StartStagePlannerMixin:
         # drop them so the fresh ancestor outputs win instead of the stale copy.
         for key in stage.context.pop("_inherited_keys", None) or []:
             stage.context.pop(key, None)
+        # The same for a list the stage keeps itself: the ancestors' items that
+        # were concatenated into it last time are not its own either.
+        for key, items in (stage.context.pop("_inherited_items", None) or {}).items():
+            own_items = stage.context.get(key)
+            if isinstance(own_items, list):
+                stage.context[key] = [item for item in own_items if item not in items]
         inherited_keys = sorted(k for k in ancestor_outputs if k not in stage.context)
+        inherited_items: dict[str, list[Any]] = {}
 
         merged = ancestor_outputs
         for key, value in stage.context.items():
@@ -58,6 +65,9 @@ class StartStagePlannerMixin:
             if key in merged and isinstance(merged[key], list) and isinstance(value, list):
                 # Concatenate lists, avoiding duplicates
                 existing = merged[key]
+                from_ancestors = [item for item in existing if item not in value]
+                if from_ancestors:
+                    inherited_items[key] = from_ancestors
                 for item in value:
                     if item not in existing:
                         existing.append(item)
@@ -67,6 +77,8 @@ class StartStagePlannerMixin:
         stage.context = merged
         if inherited_keys:
             stage.context["_inherited_keys"] = inherited_keys
+        if inherited_items:
+            stage.context["_inherited_items"] = inherited_items
 
         # Get builder
         builder = get_default_factory().get(stage.type)
